@@ -8,14 +8,16 @@
    kind "cache": a behaviour of HsCache.tla replayed on a real cache directory: events construct
      (raised, same = tokens equal to the tokens without a cache) and faults (load = what
      hyperscan.loadb says about the damaged file: the environment assumption of the model). *)
-EXTENDS HsCache, Json, IOUtils
+EXTENDS HsCache, Json, IOUtils, Hits
 Traces == JsonDeserialize(IOEnv.TRACE_FILE)
 NT == Len(Traces)
 VARIABLES tid, bucket
 NB == 64
 T(t) == Traces[t]
 SetOf(s) == {s[k] : k \in DOMAIN s}
-Clauses == {"C04.noraise", "C14.superset", "C14.genuine", "C14.citations", "C14.cache.noraise", "C14.cache.sametokens"}
+ClauseSeq == <<"C04.noraise", "C14.superset", "C14.genuine", "C14.citations", "C14.cache.noraise", "C14.cache.sametokens">>
+Clauses == {ClauseSeq[ci] : ci \in DOMAIN ClauseSeq}
+ASSUME PrintT(<<"CLAUSES", ToJson(ClauseSeq)>>)
 Holds(cl, t) ==
   LET tr == T(t) IN
   IF tr.kind = "cands" THEN
@@ -32,7 +34,20 @@ TInit == /\ tid = 0 /\ bucket \in 0..(NB - 1)
          /\ file = "absent" /\ pc = "none" /\ db = "none" /\ err = "none" /\ faults = 0 /\ hist = <<>>
 TNext == tid = 0 /\ (\E t \in {x \in 1..NT : x % NB = bucket} : tid' = t) /\ UNCHANGED <<vars, bucket>>
 TSpec == TInit /\ [][TNext]_<<vars, tid, bucket>>
-Judge == tid # 0 => \A cl \in Clauses : Holds(cl, tid) \/ PrintT(<<"FAIL", tid, cl>>)
+Exercised(cl, t) ==
+  LET tr == T(t) IN
+  IF tr.kind = "cands" THEN
+    IF cl = "C04.noraise" THEN TRUE
+    ELSE IF tr.raised # "" THEN FALSE
+    ELSE CASE cl = "C14.superset"  -> tr.ref # <<>>
+           [] cl = "C14.genuine"   -> tr.extra_genuine # <<>>
+           [] cl = "C14.citations" -> tr.ref # <<>>
+           [] OTHER -> FALSE
+  ELSE CASE cl \in {"C14.cache.noraise", "C14.cache.sametokens"} ->          \* a construction after a fault or a crash
+              \E k \in DOMAIN tr.events : tr.events[k].ev \in Faulty \cup {"crash", "foreign"}
+         [] OTHER -> FALSE
+Judge == tid # 0 => (/\ \A cl \in Clauses : Holds(cl, tid) \/ PrintT(<<"FAIL", tid, cl>>)
+   /\ PrintT(<<"HIT", tid, Mask([ci \in DOMAIN ClauseSeq |-> Exercised(ClauseSeq[ci], tid)])>>))
 (* conformance: hyperscan.loadb treats each fault class the way the model's Load assumes *)
 Conform == (tid # 0 /\ T(tid).kind = "cache") =>
    (\A k \in DOMAIN T(tid).events :
